@@ -51,6 +51,18 @@ Definition de_tm (x : sexp) : option tmapdef :=
   | _ => None
   end.
 Definition de_doc := de_listof de_tm.
+(* function executions: (id function ((parameter kind value) ...)) *)
+Definition de_exec (x : sexp) : option (list fexec) :=
+  match x with
+  | L [A id; A fn; ins] =>
+      do ins' <- de_listof (fun y => match y with L [A p; k; A v] => do k' <- de_mkind k; Some (p, k', v) | _ => None end) ins;
+      Some (match ins' with
+            | [] => [{| fe_id := id; fe_fun := fn; fe_param := []; fe_kind := KNone; fe_value := [] |}]
+            | _ => map (fun pkv => {| fe_id := id; fe_fun := fn; fe_param := fst (fst pkv); fe_kind := snd (fst pkv); fe_value := snd pkv |}) ins'
+            end)
+  | _ => None
+  end.
+Definition de_execs (x : sexp) : option (list fexec) := do l <- de_listof de_exec x; Some (concat l).
 
 Definition Z_of_dec (s : ustr) : option Z :=
   match s with
